@@ -11,6 +11,8 @@ the goroutine blocks or returns); the driver expands a macro step into the model
 * `R<h>` — `chFromID` → `ch` | `drop`
 * `S<h>` — the send on the channel (buffer 1); a waiting acceptor then receives and returns →
   `sent:conn:<h>` | `sent:lost` (the channel's acceptor has already returned) | `full`
+* `SX<h>` — the send, and the acceptor's context cancelled right behind it: the `select` may take either
+  case; both leave the same registrations → `sent:either` (or as `S<h>` when no acceptor is waiting)
 * `T<h>` — the sender's 5 s context expires → `drop` | `-`
 * `W<a>` — the acceptor is given time to run → `blocked` | `conn:<h>` | `-`
 * `X<a>` — `ctx.Done()` → `cancelled` | `-`
@@ -25,11 +27,13 @@ inductive MOp
   | verify (h : Nat)
   | route (h : Nat)
   | send (h : Nat)
+  | sendCancel (h : Nat)
   | timeout (h : Nat)
   | wait (a : Nat)
   | cancel (a : Nat)
 
 def parseMOp (s : String) : Option MOp :=
+  if s.startsWith "SX" then (s.drop 2).toString.toNat?.map .sendCancel else
   let body := (s.drop 1).toString
   match (s.take 1).toString, body.splitOn ":" with
   | "A", [a, id] => do some (.acc (← a.toNat?) (← id.toNat?))
@@ -93,6 +97,23 @@ def macroStep (s : St) : MOp → St × String
            let s'' := accRun s' ch
            (s'', match s''.apc ch with
              | some (.done (some c)) => s!"sent:conn:{c}"
+             | _ => "?")
+         | _ => (s', "sent:lost"))
+      | _ => (s', "full")
+    | _ => (s, "-")
+  | .sendCancel h =>
+    match s.hs h with
+    | some ⟨_, _, .send _⟩ =>
+      let s' := step s (.hsStep h)
+      match s'.hs h with
+      | some ⟨_, _, .delivered ch⟩ =>
+        (match s'.apc ch with
+         | some .waiting =>
+           -- the model takes the cancel branch; the receive branch ends in the same maps (see
+           -- `CJ.Props.C16.select_either_way_frees`)
+           let s'' := accRun (step s' (.accCancel ch)) ch
+           (s'', match s''.apc ch with
+             | some (.done none) => "sent:either"
              | _ => "?")
          | _ => (s', "sent:lost"))
       | _ => (s', "full")
